@@ -236,6 +236,22 @@ func (w *wl) image(i int, r *rand.Rand, gen, gclass string, sp *spec, ncombos in
 		c.Note("builder: %v", err)
 		return
 	}
+	// decoys wherever there is room for them
+	if dl := wfLayout(r); 16+12*len(dl) <= sp.MetaOff {
+		sp.DecoySecs = dl
+	} else if 16+12*3 <= sp.MetaOff {
+		sp.DecoySecs = []sec{{Addr: 0x00a00000, Len: pg, Kind: 3}, {Addr: 0x00a10000, Len: 2 * pg, Kind: 1}, {Addr: 0x00a20000, Len: pg, Kind: 2}}
+	}
+	if sp.MetaOff+sp.metaLen() <= sp.Size-tableEndOffset-sp.tableSize()-22 {
+		d := ^sp.Reset ^ 0x00010001&r.Uint32()
+		sp.DecoyReset = &d
+	}
+	if len(sp.DecoySecs) > 0 {
+		c.Count("images-with-decoy-metadata", 1)
+	}
+	if sp.DecoyReset != nil {
+		c.Count("images-with-decoy-reset-block", 1)
+	}
 	img, err := sp.build(rand.New(rand.NewPCG(r.Uint64(), 4)))
 	if err != nil {
 		w.selfcheckFailed++
@@ -346,6 +362,7 @@ func (w *wl) launch(i int, gen string, img []byte, co combo) (got []byte, err er
 	if m.Panicked {
 		return nil, nil, false
 	}
+	got = append([]byte(nil), got...) // the result may alias state a later call overwrites
 	if opts.Vcpus != co.vcpus || opts.Product != co.prod {
 		c.Oracle(i, "sev.LaunchDigest", "options-changed", gen, "options after the call: %+v, before: vcpus=%d product=%v", opts, co.vcpus, co.prod)
 	}
